@@ -96,7 +96,7 @@ PROPS["C05"] = {
 }
 
 PROPS["C18"] = {
-    "modules": ["SamlVerif.Props.C18", "SamlVerif.Props.TransSP", "SamlVerif.Props.TransTrust", "SamlVerif.Props.PureSaml"],
+    "modules": ["SamlVerif.Props.C18", "SamlVerif.Props.TransSP", "SamlVerif.Props.TransTrust", "SamlVerif.Props.TransLogout", "SamlVerif.Props.PureSaml"],
     "trusted_base": SP_TB + ["the validator reads time.Now(), not the library clock: freshness cases keep a 5 s guard band around the boundary"],
     "assumptions": ["inflate(deflate b) = b for the encodings-agree theorem"],
     "rule": "both encodings x 4 entry points x signature transformations (valid, none, untrusted key, edited after signing, relocated, duplicated, other trusted-looking key) "
@@ -268,7 +268,7 @@ TRANS_TB = ("the Go->Lean translator (extract/trans.go: go/ast + go/types over a
 for pid, fns in {"C01": "parseResponse / parseAssertion / parseEncryptedAssertion / parseArtifactResponse / the trust configuration of validateSignature",
                  "C02": "validateAssertion / parseResponse", "C03": "validateAssertion / validateAudienceRestriction / parseResponse",
                  "C04": "validateRequestID / validateAssertion / parseResponse / parseArtifactResponse / samlsp Middleware.ServeACS (the outstanding request IDs)", "C05": "IdpAuthnRequest.Validate (from the Destination check on) / getACSEndpoint / the endpoint selection of ServeIDPInitiated / the gate of ServeSSO",
-                 "C18": "validateLogoutResponse / the trust configuration of validateSignature",
+                 "C18": "validateLogoutResponse / ValidateLogoutResponseForm and ValidateLogoutResponseRedirect (from the signature check on) / the trust configuration of validateSignature",
                  "C08": "IdpAuthnRequest.getSPEncryptionCert (the selection of the certificate string, up to its decoding)",
                  "C10": "xmlenc appendPadding / stripPadding", "C11": "xmlenc stripPadding",
                  "C16": "samlsp CookieSessionProvider.GetSession",
